@@ -322,7 +322,9 @@ def _hard(s):
 CLASSIC = ['\\");x()#', '");x()#', '\\\\");x()#', "\\');x()#", "');x()#", '\\");exit()#', '\\"+str(ctx)+"', '"+str(ctx)+"',
            '\\\n");x()#', '{ctx}', '\\{ctx\\}', '%s', '\\N{BULLET}', '\\x41', '\\101', '\\u0041', 'a[b]', '[a]', 'a[0]', 'a[ctx]', 'a^b', 'a`b', 'a\\b', 'a\nb', '"+x+"', '");x(', '\\");x(#', '\\\\");x(#',
            "');x('", '\\', '\\"', 'a"b', "a'b", 'a\\nb', '";import os;"', 'x=1', 'a,b', 'a:b', 'a;b', 'a=b', '_', '__a', '0a', 'a0',
-           'a.b', 'ctx.x', 'a b', 'a(b)', 'exit()', '\\\n', '\r', 'a\rb', '\x00', 'é', 'ａ', 'a[b', 'a]b', '`);x(`', '\\`);x(`']
+           'a.b', 'ctx.x', 'a b', 'a(b)', 'exit()', '\\\n', '\r', 'a\rb', '\x00', 'é', 'ａ', 'a[b', 'a]b', '`);x(`', '\\`);x(`',
+           # the longest names: hundreds of dropped characters, then Python text
+           ' ' * 257 + 'if x() else dict', '(' * 300 + 'x', '+' * 1000 + 'x()', ' ' * 400 + 'x']
 
 
 _DICT_HOT = None
